@@ -26,6 +26,9 @@ def subPackageSkip : Bool := true
 def symlinkBucket : Bool := true
 def filterSubPackages : Bool := true
 def filterHidden : Bool := true
+def cacheKeyHasHidden : Bool := false
+def hiddenAtWalk : Bool := false
+def hiddenPerMatch : Bool := true
 def filterExcludes : Bool := true
 def inDirsComponentwise : Bool := true
 def hiddenOnBaseName : Bool := true
